@@ -541,6 +541,10 @@ func (x *MessageSubsidy) Check() lib.ErrorI {
 	if err := checkAddress(x.Address); err != nil {
 		return err
 	}
+	// the subsidy is credited to the reward pool of a committee: the id must be a chain id, not the id of an escrow, holding or liquidity pool
+	if err := checkChainId(x.ChainId); err != nil {
+		return err
+	}
 	if len(x.Opcode) > 100 {
 		return ErrInvalidOpcode()
 	}
